@@ -73,9 +73,9 @@ PROP = dict(
          "driver steps, one request at a time over ALL endpoints (upload start/patch/commit with whole, partial, junk, "
          "foreign, short, long, empty, beyond-the-end bodies; duplicate and transfer endpoints; stat/get/prefetch/"
          "metainfo/delete/overwrite/replicate/locations/cleanup/health; unparsable parameters) interleaved with faults "
-         "(node down, backend down, manager.Add failing, remote down), ring changes, backend contents, clock steps and "
+         "(node down, backend down, manager.Add failing, remote origins failing uploads with non-retryable, retryable statuses or dropped connections), ring changes, backend contents, clock steps and "
          "the release of parked refresh downloads with exact / corrupted / failing / vanished content; family 'conc' "
-         "(28 / 134 traces): 2-3 clients issue 3-6 requests each at once in 2-3 rounds against the same blobs; 9 scripted "
+         "(28 / 134 traces): 2-3 clients issue 3-6 requests each at once in 2-3 rounds against the same blobs; 10 scripted "
          "traces (fan-out with a dead and a conflicting replica, 202-then-200 refresh with error TTL, ring change + "
          "forced cleanup, duplicate commit meeting a blob that appeared meanwhile, and one trace per recorded finding). "
          "Every request's arrival and answer at every node, every manager.Add, backend.Download, remote upload and "
